@@ -149,7 +149,7 @@ let parse_body (s : string) : Api.body_in =
                          tb_perms = plus_list perms; tb_time_ok = bool01 tok })
   | _ -> failwith ("api: bad body " ^ s)
 
-let empty_env = { Api.e_conf = []; e_writable = true; e_groups = []; e_tokens = [] }
+let empty_env = { Api.e_conf = []; e_writable = true; e_store_ok = true; e_groups = []; e_tokens = [] }
 
 let upd_group (e : Api.env) (g : string) (f : Api.description -> Api.description) : Api.env =
   let found = ref false in
@@ -161,6 +161,7 @@ let comp_api : Registry.comp = fun _params ->
   let env = ref empty_env in
   let snap = ref empty_env in
   let last = ref "" in
+  let fail_next = ref false in   (* the store step of the next request fails *)
   fun toks ->
     match toks with
     | ["writable"; w] -> env := { !env with Api.e_writable = bool01 w }; "-"
@@ -187,13 +188,18 @@ let comp_api : Registry.comp = fun _params ->
     | ["reset"] -> env := !snap; last := print_state !env; "-"
     | ["req"; m; path; cred; body] ->
        let r = { Api.r_method = cs m; r_path = cs path; r_creds = parse_cred cred; r_body = parse_body body } in
-       let (e', resp) = Api.handle hash_oracle !env r in
+       let e_in = if !fail_next then { !env with Api.e_store_ok = false } else !env in
+       fail_next := false;
+       let (e', resp) = Api.handle hash_oracle e_in r in
+       let e' = { e' with Api.e_store_ok = true } in
        env := e';
        let st = print_state e' in
        let sts = if st = !last then "=" else st in
        last := st;
        zs resp.Api.rs_status ^ " " ^ print_body resp.Api.rs_body ^ " " ^ sts
     | "http" :: _ -> "-"   (* C12 lines: outside the model *)
+    | "fault" :: _ -> fail_next := true; "-"   (* a write fault is armed for the next request *)
+    | "faulthttp" :: _ -> "-"
     | "lockstep" :: _ | "par" :: _ | "load" :: _ -> "-"   (* scheduling lines: outside the model *)
     | _ -> failwith ("api: bad op " ^ String.concat " " toks)
 
